@@ -9,6 +9,7 @@ import (
 	"sort"
 	"strings"
 	"testing"
+	"time"
 
 	"github.com/couchbase/sync_gateway/verifshim/vreport"
 	"github.com/couchbase/sync_gateway/verifshim/vstate"
@@ -710,4 +711,115 @@ func TestVerifC10(t *testing.T) {
 	vstate.Explore(r, mk(2, d2))
 	vstate.Explore(r, mk(3, d3))
 	r.Add("distinct_nontrivial", r.Get("states")+r.Get("vectors")+r.Get("strings"))
+}
+
+// ---- (c) versions generated by the real write path strictly increase per source, whatever the stored vector says
+// about our source and however far the node's clock lags behind it.
+
+type c10LocalCase struct {
+	Place  string `json:"place"`  // where the stored vector records our source: none | pv | mv
+	Future bool   `json:"future"` // the recorded value is ahead of this node's clock (clock stepped back / lagging node of the same cluster)
+	Edits  int    `json:"edits"`
+	Del    bool   `json:"del"` // the last local edit is a delete
+}
+
+func c10RunLocal(t *testing.T, r *vreport.Report, db *Database, ctx context.Context, coll *DatabaseCollectionWithUser, n int, c c10LocalCase) {
+	ours := db.EncodedSourceID
+	docID := fmt.Sprintf("c10local-%d", n)
+	now := uint64(time.Now().UnixNano())
+	recorded := now - uint64(time.Hour)
+	if c.Future {
+		recorded = now + uint64(time.Hour)
+	}
+	tag := fmt.Sprintf("place=%s/future=%v", c.Place, c.Future)
+	incoming := &HybridLogicalVector{SourceID: "peerP", Version: recorded + 1000}
+	switch c.Place {
+	case "pv":
+		incoming.PreviousVersions = HLVVersions{ours: recorded, "peerQ": recorded - 5}
+	case "mv":
+		incoming.MergeVersions = HLVVersions{ours: recorded, "peerQ": recorded - 5}
+	case "none":
+		incoming.PreviousVersions = HLVVersions{"peerQ": recorded - 5}
+	}
+	newDoc := CreateTestDocument(docID, "", Body{"from": "peer"}, false, 0)
+	doc, _, _, err := coll.PutExistingCurrentVersion(ctx, PutDocOptions{NewDoc: newDoc, NewDocHLV: incoming})
+	if err != nil || doc == nil {
+		r.Violate("C10/local/setup-pull-rejected/"+tag, fmt.Sprintf("pull of %s into an empty document failed: %v", incoming.HLVDebugString(), err), c)
+		return
+	}
+	floor := uint64(0)
+	if c.Place != "none" {
+		floor = recorded
+	}
+	for i := 0; i < c.Edits; i++ {
+		cur, err := coll.GetDocument(ctx, docID, DocUnmarshalAll)
+		if err != nil {
+			r.Violate("C10/local/read-failed/"+tag, err.Error(), c)
+			return
+		}
+		before := cur.HLV.HLVDebugString()
+		body := Body{"edit": i, BodyRev: cur.GetRevTreeID()}
+		if c.Del && i == c.Edits-1 {
+			body[BodyDeleted] = true
+		}
+		_, _, err = coll.Put(ctx, docID, body)
+		if err != nil {
+			r.Violate("C10/local/local-edit-rejected/"+tag, fmt.Sprintf("local edit %d on a document whose vector is %s failed: %v (our source %s, recorded value %d, clock about %d)", i+1, before, err, ours, floor, now), c)
+			return
+		}
+		after, err := coll.GetDocument(ctx, docID, DocUnmarshalAll)
+		if err != nil || after.HLV == nil {
+			r.Violate("C10/local/read-failed/"+tag, fmt.Sprint(err), c)
+			return
+		}
+		if after.HLV.SourceID != ours {
+			r.Violate("C10/local/current-version-not-ours/"+tag, fmt.Sprintf("after a local edit cv is %s (our source %s); before %s", after.HLV.HLVDebugString(), ours, before), c)
+		}
+		if after.HLV.Version <= floor {
+			r.Violate("C10/local/local-version-not-increasing/"+tag, fmt.Sprintf("local edit %d generated %d@%s which is not above %d already recorded for that source; before %s after %s", i+1, after.HLV.Version, ours, floor, before, after.HLV.HLVDebugString()), c)
+		}
+		for src, v := range after.HLV.PreviousVersions {
+			if src == ours && v >= after.HLV.Version {
+				r.Violate("C10/local/source-listed-with-higher-previous-value/"+tag, fmt.Sprintf("after %s", after.HLV.HLVDebugString()), c)
+			}
+		}
+		if _, dup := after.HLV.MergeVersions[ours]; dup {
+			r.Violate("C10/local/source-listed-twice/"+tag, fmt.Sprintf("our source is both cv and in mv after a local edit: %s", after.HLV.HLVDebugString()), c)
+		}
+		floor = after.HLV.Version
+	}
+	r.Distinct("local_outcomes", fmt.Sprintf("%+v", c))
+}
+
+func TestVerifC10Local(t *testing.T) {
+	r := vreport.Begin("C10")
+	defer r.Finish(t)
+	r.Rule("(c) every (placement of this node's source in a pulled vector: absent / previous versions / merge versions) x (recorded value behind or one hour ahead of this node's clock) x (1..3 local edits, last one optionally a delete) on a real database through the real write path; each generated version must belong to this node's source and exceed every value recorded for it; non-trivial = distinct case")
+	r.Assume("a lagging clock is represented by a recorded value one hour in the future")
+	db, ctx := setupTestDB(t)
+	defer db.Close(ctx)
+	coll, ctx := GetSingleDatabaseCollectionWithUser(ctx, t, db)
+	var rc c10LocalCase
+	if r.Replaying(&rc) {
+		c10RunLocal(t, r, db, ctx, coll, 0, rc)
+		return
+	}
+	n := 0
+	for _, place := range []string{"none", "pv", "mv"} { // a source in both pv and mv is not a valid vector
+		for _, future := range []bool{false, true} {
+			for edits := 1; edits <= 3; edits++ {
+				for _, del := range []bool{false, true} {
+					n++
+					if !r.Mine(n) {
+						continue
+					}
+					c := c10LocalCase{Place: place, Future: future, Edits: edits, Del: del}
+					c10RunLocal(t, r, db, ctx, coll, n, c)
+					r.Add("evaluations", 1)
+					r.Add("distinct_nontrivial", 1)
+					r.Sample(c)
+				}
+			}
+		}
+	}
 }
